@@ -47,7 +47,7 @@ COMPONENTS = {
     "stub": ["objective/gradient/callback/scaler/ftarget/gtol actors", "durable store", "limits placed from a reference run"],
 }
 ASSUMPTIONS = ["restart histories do not use a gradient scaler (scaler x restart is judged under C05)"]
-PLAN_TIMEOUT = 240
+PLAN_TIMEOUT = 600
 MSG = DOCUMENTED_MESSAGES
 
 
